@@ -37,6 +37,23 @@ int main(int argc, char **argv)
         std::string out;
         for (size_t i = 0; i < m->unitsCount(); ++i) out += (i ? " " : "") + m->units(i)->name() + ":" + std::to_string(referencedUnits(m, m->units(i)).size());
         std::cout << out << std::endl;
+        // every other recursion over unit references, started at every units: they must return
+        std::string q;
+        for (size_t i = 0; i < m->unitsCount(); ++i) {
+            auto u = m->units(i);
+            q += (u->isDefined() ? "d" : "-");
+            q += (u->isResolved() ? "r" : "-");
+            q += (u->requiresImports() ? "i" : "-");
+            q += (u->isBaseUnit() ? "b" : "-");
+            for (size_t j = 0; j < m->unitsCount(); ++j) { Units::compatible(u, m->units(j)); Units::scalingFactor(u, m->units(j)); }
+            q += " ";
+        }
+        q += m->hasImports() ? "I" : "-";
+        q += m->hasUnresolvedImports() ? "U" : "-";
+        q += m->isDefined() ? "D" : "-";
+        auto v = Validator::create(); v->validateModel(m);
+        auto pr = Printer::create(); pr->printModel(m);
+        std::cout << "queries " << q << std::endl;
         return 0;
     }
     bool strict = std::string(argv[2]) == "strict";
